@@ -37,7 +37,7 @@ def run(rep):
                 f.write("\n".join(lines[off::step]) + "\n")
         # plus statements of the verification grammar (the property quantifies over corpus + grammar)
         ng = 1500 if rep.tier == "quick" else 40000
-        rcg, outg = verif.sh(["python3", os.path.join(verif.ROOT, "checks", "gen_sql_grammar.py"), str(rep.seed), str(ng)], timeout=1200)
+        rcg, outg = verif.sh(["python3", os.path.join(verif.ROOT, "checks", "gen_sql_grammar.py"), str(rep.seed), str(ng), "--gaps"], timeout=1200)
         if rcg == 0 and outg.strip():
             merged = os.path.join(verif.BUILD, "relayout_in_all.txt")
             with open(merged, "w", encoding="utf-8", errors="surrogateescape") as f:
